@@ -27,8 +27,9 @@ func init() {
 			}
 			return 64
 		},
-		Run:      runC17,
-		Required: []string{"server_splits", "client_splits", "messages_delivered"},
+		Run:          runC17,
+		BeatTimeoutS: 60,
+		Required:     []string{"server_splits", "client_splits", "messages_delivered"},
 		Assumptions: []string{
 			"exhaustive over split points and the listed buffer sizes for each generated stream; streams are sampled",
 			"the hijacked bufio.Reader wraps the same scripted conn and holds what one transport read returned, as with net/http",
